@@ -248,6 +248,8 @@ func unsupported(msg string) bool {
 		strings.Contains(m, "does not support") || strings.Contains(m, "cannot be used") || strings.Contains(m, "not available")
 }
 
+// probe discovers capabilities on plain receivers (without AllowVarTime): a capability is a property of the point type,
+// and the probe must not be the first code to run the configuration under test.
 func (g *G) probe() {
 	cap := func(op string, f func()) bool {
 		msg, p := try(f)
@@ -259,27 +261,27 @@ func (g *G) probe() {
 		}
 		return false
 	}
-	g.CanBase = cap("Base", func() { g.Point().Base() })
+	g.CanBase = cap("Base", func() { g.Grp.Point().Base() })
 	if g.CanBase {
-		g.CanMulNil = cap("Mul(s,nil)", func() { g.Point().Mul(g.Scalar().One(), nil) })
+		g.CanMulNil = cap("Mul(s,nil)", func() { g.Grp.Point().Mul(g.Scalar().One(), nil) })
 	}
-	g.CanPick = cap("Pick", func() { g.Point().Pick(Stream("probe")) })
+	g.CanPick = cap("Pick", func() { g.Grp.Point().Pick(Stream("probe")) })
 	g.CanEmbed = cap("Embed", func() {
-		if g.Point().EmbedLen() <= 0 {
+		if g.Grp.Point().EmbedLen() <= 0 {
 			panic("unsupported: EmbedLen 0")
 		}
-		g.Point().Embed([]byte{1}, Stream("probe"))
+		g.Grp.Point().Embed([]byte{1}, Stream("probe"))
 	})
 	if g.CanEmbed {
 		g.CanData = cap("Data", func() {
-			p := g.Point().Embed([]byte{1}, Stream("probe"))
+			p := g.Grp.Point().Embed([]byte{1}, Stream("probe"))
 			if _, err := p.Data(); err != nil {
 				panic("unsupported: " + err.Error())
 			}
 		})
 	}
 	g.CanHash = cap("Hash", func() {
-		h, ok := g.Point().(Hasher)
+		h, ok := g.Grp.Point().(Hasher)
 		if !ok {
 			panic("unsupported: no Hash")
 		}
